@@ -106,6 +106,45 @@ type sqlCursor struct {
 
 func installSQLStubs(t *sqlTable) {
 	stmts := map[*sql.Stmt]string{}
+	// transactions (database/sql contract): a statement bound to a transaction by
+	// Tx.Stmt writes into the transaction, becomes visible at Commit, is discarded at
+	// Rollback, and is closed ("sql: statement is closed") once the transaction is over
+	type txState struct {
+		done    bool
+		pending []sqlRow
+	}
+	txs := map[*sql.Tx]*txState{}
+	txOf := map[*sql.Stmt]*sql.Tx{}
+	vrt.Stub("(*database/sql.DB).Begin", func(db *sql.DB) (*sql.Tx, error) {
+		tx := new(sql.Tx)
+		txs[tx] = &txState{}
+		return tx, nil
+	})
+	vrt.Stub("(*database/sql.Tx).Stmt", func(tx *sql.Tx, st *sql.Stmt) *sql.Stmt {
+		s2 := new(sql.Stmt)
+		stmts[s2] = stmts[st]
+		txOf[s2] = tx
+		return s2
+	})
+	vrt.Stub("(*database/sql.Tx).Commit", func(tx *sql.Tx) error {
+		ts := txs[tx]
+		if ts.done {
+			return sql.ErrTxDone
+		}
+		ts.done = true
+		for _, r := range ts.pending {
+			t.insert(r.name, r.snap)
+		}
+		return nil
+	})
+	vrt.Stub("(*database/sql.Tx).Rollback", func(tx *sql.Tx) error {
+		ts := txs[tx]
+		if ts.done {
+			return sql.ErrTxDone
+		}
+		ts.done = true
+		return nil
+	})
 	rowsOf := map[*sql.Rows]*sqlCursor{}
 	rowOf := map[*sql.Row]*sqlCursor{}
 	vrt.Stub("database/sql.Open", func(driverName, url string) (*sql.DB, error) { return new(sql.DB), nil })
@@ -117,9 +156,21 @@ func installSQLStubs(t *sqlTable) {
 		return s, nil
 	})
 	vrt.Stub("(*database/sql.Stmt).Exec", func(s *sql.Stmt, args []any) (sql.Result, error) {
+		var ts *txState
+		if tx := txOf[s]; tx != nil {
+			ts = txs[tx]
+			if ts.done {
+				return nil, errors.New("sql: statement is closed")
+			}
+		}
 		if stmts[s] == "VRT APPEND" {
-			t.insert(args[0].(string), asset.Snapshot{Date: args[1].(time.Time), Open: args[2].(float64), High: args[3].(float64),
-				Low: args[4].(float64), Close: args[5].(float64), Volume: args[6].(float64)})
+			snap := asset.Snapshot{Date: args[1].(time.Time), Open: args[2].(float64), High: args[3].(float64),
+				Low: args[4].(float64), Close: args[5].(float64), Volume: args[6].(float64)}
+			if ts != nil {
+				ts.pending = append(ts.pending, sqlRow{args[0].(string), snap})
+			} else {
+				t.insert(args[0].(string), snap)
+			}
 		}
 		return nil, nil
 	})
@@ -181,22 +232,50 @@ func installSQLStubs(t *sqlTable) {
 var nativeTable *sqlTable
 
 type fakeDriver struct{}
-type fakeConn struct{}
-type fakeStmt struct{ q string }
+type fakeConn struct {
+	inTx    bool
+	pending []sqlRow
+}
+type fakeStmt struct {
+	q string
+	c *fakeConn
+}
+type fakeTx struct{ c *fakeConn }
+
+func (t fakeTx) Commit() error {
+	for _, r := range t.c.pending {
+		nativeTable.insert(r.name, r.snap)
+	}
+	t.c.pending, t.c.inTx = nil, false
+	return nil
+}
+func (t fakeTx) Rollback() error {
+	t.c.pending, t.c.inTx = nil, false
+	return nil
+}
+
 type fakeRows struct {
 	c *sqlCursor
 }
 
-func (fakeDriver) Open(name string) (driver.Conn, error) { return fakeConn{}, nil }
-func (fakeConn) Prepare(q string) (driver.Stmt, error)   { return &fakeStmt{q}, nil }
-func (fakeConn) Close() error                            { return nil }
-func (fakeConn) Begin() (driver.Tx, error)               { return nil, errors.New("no transactions") }
-func (s *fakeStmt) Close() error                         { return nil }
-func (s *fakeStmt) NumInput() int                        { return -1 }
+func (fakeDriver) Open(name string) (driver.Conn, error)  { return &fakeConn{}, nil }
+func (c *fakeConn) Prepare(q string) (driver.Stmt, error) { return &fakeStmt{q, c}, nil }
+func (c *fakeConn) Close() error                          { return nil }
+func (c *fakeConn) Begin() (driver.Tx, error) {
+	c.inTx = true
+	return fakeTx{c}, nil
+}
+func (s *fakeStmt) Close() error  { return nil }
+func (s *fakeStmt) NumInput() int { return -1 }
 func (s *fakeStmt) Exec(args []driver.Value) (driver.Result, error) {
 	if s.q == "VRT APPEND" {
-		nativeTable.insert(args[0].(string), asset.Snapshot{Date: args[1].(time.Time), Open: args[2].(float64), High: args[3].(float64),
-			Low: args[4].(float64), Close: args[5].(float64), Volume: args[6].(float64)})
+		snap := asset.Snapshot{Date: args[1].(time.Time), Open: args[2].(float64), High: args[3].(float64),
+			Low: args[4].(float64), Close: args[5].(float64), Volume: args[6].(float64)}
+		if s.c.inTx {
+			s.c.pending = append(s.c.pending, sqlRow{args[0].(string), snap})
+		} else {
+			nativeTable.insert(args[0].(string), snap)
+		}
 	}
 	return driver.RowsAffected(1), nil
 }
